@@ -1,0 +1,43 @@
+//! Fault injection for the external verification harness.
+//!
+//! Compiled only with the `verif-hooks` feature. While a fault is armed on the current
+//! thread, the Poseidon permutation executor with the given operation id adds `delta` to one
+//! limb of its resolved input state right before permuting, the way a dishonest prover
+//! would fill that cell of the permutation table; everything downstream (outputs, chain
+//! state, recorded table row) is derived from the altered state by the unchanged executor.
+//! Nothing is armed by default.
+
+extern crate std;
+
+use alloc::boxed::Box;
+use core::any::Any;
+use core::cell::RefCell;
+
+std::thread_local! {
+    static PERM_INPUT_FAULT: RefCell<Option<(u32, usize, Box<dyn Any>)>> = const { RefCell::new(None) };
+}
+
+/// Arm a fault for the permutation operation `op_id` on this thread.
+pub fn set_perm_input_fault<F: 'static>(op_id: u32, limb: usize, delta: F) {
+    PERM_INPUT_FAULT.with(|f| *f.borrow_mut() = Some((op_id, limb, Box::new(delta))));
+}
+
+/// Disarm.
+pub fn clear_perm_input_fault() {
+    PERM_INPUT_FAULT.with(|f| *f.borrow_mut() = None);
+}
+
+pub(crate) fn apply_perm_input_fault<F: Copy + core::ops::AddAssign + 'static>(
+    op_id: u32,
+    state: &mut [F],
+) {
+    PERM_INPUT_FAULT.with(|f| {
+        if let Some((id, limb, delta)) = f.borrow().as_ref()
+            && *id == op_id
+            && let Some(d) = delta.downcast_ref::<F>()
+            && let Some(cell) = state.get_mut(*limb)
+        {
+            *cell += *d;
+        }
+    });
+}
